@@ -6,6 +6,7 @@ address.  Each accepted connection takes the next fault spec from the plan (None
 
   {'dir': 's2c'|'c2s', 'kind': 'cut', 'at': k}        close both sides after exactly k bytes of that direction
   {'dir': 's2c', 'kind': 'blackhole', 'at': k}         forward k bytes of the reply stream, swallow the rest
+  {'dir': 's2c', 'kind': 'drop', 'at': a, 'until': b}  swallow exactly bytes [a, b) of the reply stream (a reply lost entirely), forward the rest
 
 Per connection the relay records the bytes forwarded in both directions (the s2c record is what the client
 could have seen at most).
@@ -24,6 +25,7 @@ class Conn(object):
         self.c2s = bytearray()      # bytes forwarded client -> server
         self.s2c = bytearray()      # bytes forwarded server -> client
         self.swallowed = 0
+        self.seen = {}
         self.done = threading.Event()
         self.cut = False
 
@@ -98,6 +100,19 @@ class Relay(object):
                             if len(rec) >= spec['at']:
                                 conn.cut = True
                                 return
+                            continue
+                        if spec['kind'] == 'drop':
+                            # swallow stream bytes [at, until), forward everything else
+                            seen = conn.seen.get(direction, 0)
+                            keep = bytearray()
+                            for i, byte in enumerate(data):
+                                if not (spec['at'] <= seen + i < spec['until']):
+                                    keep.append(byte)
+                            conn.seen[direction] = seen + len(data)
+                            conn.swallowed += len(data) - len(keep)
+                            if keep:
+                                out.sendall(bytes(keep))
+                                rec.extend(keep)
                             continue
                         if spec['kind'] == 'blackhole':
                             part = data[:max(0, room)]
